@@ -59,8 +59,8 @@ class DualVigilanceART(BaseART):
 
         params = {"rho_lower_bound": rho_lower_bound}
         assert base_module.params["rho"] > params["rho_lower_bound"] >= 0
-        super().__init__(params)
         self.base_module = base_module
+        super().__init__(params)
         self.rho_lower_bound = rho_lower_bound
         self.map: dict[int, int] = dict()
 
@@ -164,6 +164,22 @@ class DualVigilanceART(BaseART):
     @labels_.setter
     def labels_(self, new_labels: np.ndarray):
         self.base_module.labels_ = new_labels
+
+    @property
+    def weight_sample_counter_(self) -> List[int]:
+        """Get the per-category sample counters from the base module.
+
+        Returns
+        -------
+        list of int
+            Number of samples assigned to each base-module category.
+
+        """
+        return self.base_module.weight_sample_counter_
+
+    @weight_sample_counter_.setter
+    def weight_sample_counter_(self, new_counter: List[int]):
+        self.base_module.weight_sample_counter_ = new_counter
 
     @property
     def W(self) -> List:
